@@ -45,17 +45,21 @@ def run(ctx):
 
     # 3. race detector on un-instrumented hammering.
     rounds, ng, nops = (10, 6, 3000) if q else (40, 8, 20000)
-    ctx.vh(["c10", "race", ctx.scratch / "race.res", rounds, ng, nops], race=True, timeout=1800)
-    s3 = ctx.collect(ctx.scratch / "race.res")
+    pr = ctx.vh(["c10", "race", ctx.scratch / "race.res", rounds, ng, nops], race=True, timeout=1800, fatal_key="cache hammering")
+    s3 = ctx.collect(ctx.scratch / "race.res") if pr.returncode == 0 else {"race_calls": 0}
     ctx.evaluations += s3["race_calls"]
     ctx.extra["race_calls"] = s3["race_calls"]
 
     # 4. stamped stress, validated per key by CacheLin.tla.
     runs, ng2, nops2 = (10, 4, 250) if q else (60, 6, 500)
-    ctx.vh(["c10", "stress", d / "cachelin_trace.ndjson", ctx.scratch / "stress.res", runs, ng2, nops2], race=True, timeout=1800)
-    s4 = ctx.collect(ctx.scratch / "stress.res")
-    validate_trace(ctx, d, "CacheLin", "CacheLin.cfg", "cachelin_trace.ndjson", "concurrent cache history", hwm=True,
-                   dfs=True, timeout=1800)
+    ps = ctx.vh(["c10", "stress", d / "cachelin_trace.ndjson", ctx.scratch / "stress.res", runs, ng2, nops2], race=True, timeout=1800,
+                fatal_key="cache stress")
+    if ps.returncode != 0:
+        s4 = {"segments": 1, "stress_calls": 0}
+    else:
+      s4 = ctx.collect(ctx.scratch / "stress.res")
+      validate_trace(ctx, d, "CacheLin", "CacheLin.cfg", "cachelin_trace.ndjson", "concurrent cache history", hwm=True,
+                     dfs=True, timeout=1800)
     ctx.traces += s4["segments"] - 1
     ctx.distinct += s4["segments"]
     ctx.evaluations += s4["stress_calls"]
